@@ -6,12 +6,12 @@
 (* real draws cannot matter) one request per method is emitted for replay.   *)
 EXTENDS Decision, Json, TLC
 
-CONSTANTS MaxLen, Probs
+CONSTANTS MaxLen, Probs, DisabledFlags
 
 U == 1024
 Methods7 == <<"weightedSum", "owa", "choquetIntegral", "electreIII", "majorityHeuristic",
               "aspectEliminationHeuristic", "satisfactionHeuristic">>
-BiasRec == [name : Kinds, p : Probs, disabled : {FALSE, TRUE}]
+BiasRec == [name : Kinds, p : Probs, disabled : DisabledFlags]
 BiasLists == UNION {[1..n -> BiasRec] : n \in 0..MaxLen}
 Requests == {r \in [biases : BiasLists, draws : [1..MaxLen -> 0..3]] : TRUE}
 
